@@ -20,6 +20,8 @@ def ea_prog(ops, init=(0, 1), fail=None):
     L = ["prog ea"]
     if fail:
         L.append("fail %d %s" % fail)
+    if (len(ops) + init[0]) % 2:
+        L.append("typed")        # every other program uses the typed wrappers (ELASTICARRAY_DECL) for record sizes 1, 3, 4 and 12
     L.append("init %d %d" % init)
     for o in ops:
         k = o[0]
@@ -59,7 +61,7 @@ def ea_from_tlc(h):
 def rand_ea(rnd, nops, maxrec, big=False):
     ops = []
     for _ in range(nops):
-        r = rnd.choice([1, 1, 2, 3, 4, 7, 8, 16])
+        r = rnd.choice([1, 1, 2, 3, 4, 7, 8, 12, 16])
         k = rnd.choice(["append"] * 4 + ["resize", "shrink", "shrink", "truncate", "getsize", "get", "exportdup", "appendbig", "bigresize", "bigshrink"])
         if k == "append":
             n = rnd.choice([0, 1, 1, 2, 3, rnd.randint(0, maxrec)])
@@ -81,7 +83,7 @@ def rand_ea(rnd, nops, maxrec, big=False):
         else:
             ops.append((k, r))
     if rnd.random() < 0.3:
-        ops.append(("export", rnd.choice([1, 2, 3])))
+        ops.append(("export", rnd.choice([1, 2, 3, 4, 12])))
     return ea_prog(ops, init=(rnd.choice([0, 0, 1, 5, rnd.randint(0, maxrec)]), rnd.choice([1, 2, 8])))
 
 
@@ -140,6 +142,8 @@ def mp_prog(rnd, nops, nslots, fail=None):
     L = ["prog mp"]
     if fail:
         L.append("fail %d %s" % fail)
+    if rnd.random() < 0.35:
+        L.append("pool1 1")      # the smallest legal pool: a cache of one object
     for _ in range(nops):
         L.append("%s %d" % (rnd.choice(["pmalloc"] * 6 + ["pfree"] * 3 + ["patexit"]), rnd.randint(1, nslots)))      # patexit: handed back by an exit handler
     L.append("end")
